@@ -1005,6 +1005,7 @@ pub fn gen_crash_case(rng: &mut Rng) -> CrashCase {
             cmd.argv = vec!["hash".into(), "transaction".into()];
             let tx = gen_transaction(rng, true);
             let sig = gen_signature_text(rng);
+            let sig = if rng.chance(1, 4) { mutate_hex_text(rng, &sig) } else { sig };
             cmd.argv.push("--signature".into());
             cmd.argv.push(sig);
             input(rng, &mut cmd, tx.into_bytes());
@@ -1024,6 +1025,7 @@ pub fn gen_crash_case(rng: &mut Rng) -> CrashCase {
                 6 => format!("0x{}", SECP_N),
                 _ => format!("0x{}", hex::encode(rng.bytes(32))),
             };
+            let d = if rng.coin() { mutate_hex_text(rng, &d) } else { d };
             cmd.argv.push(d);
         }
         4 => {
@@ -1178,6 +1180,76 @@ pub fn gen_crash_case(rng: &mut Rng) -> CrashCase {
 /// Enumerated: a legacy transaction whose chain id sits at the EIP-155 limit
 /// (2^256-37)/2 - 3 ..= +3, through every command that computes v, with both parities.
 pub const CHAIN_ENUM: usize = 7 * 8;
+
+/// Layout noise for a hex-like textual argument (digest, signature): doubled or dropped prefix,
+/// interior/leading/trailing whitespace, separators, upper case — half of the time keeping the
+/// total number of characters the same by removing as many digits as were inserted, so that a
+/// length check on the characters and a decoder that skips some of them disagree.
+pub fn mutate_hex_text(rng: &mut Rng, text: &str) -> String {
+    let (mut prefix, mut body): (String, Vec<char>) = match text.strip_prefix("0x") {
+        Some(b) => ("0x".into(), b.chars().collect()),
+        None => (String::new(), text.chars().collect()),
+    };
+    let keep_len = rng.coin();
+    for _ in 0..rng.range(1, 3) {
+        let mut inserted = 0usize;
+        match rng.below(8) {
+            0 => {
+                body.splice(0..0, "0x".chars());
+                inserted = 2;
+            }
+            1 => {
+                if prefix.is_empty() {
+                    prefix = "0x".into();
+                } else {
+                    prefix.clear();
+                }
+            }
+            2 | 3 => {
+                let ws = [' ', '\t', '\n', '\r'][rng.usize_below(4)];
+                let n = rng.range(1, 4) as usize;
+                for _ in 0..n {
+                    let at = rng.usize_below(body.len() + 1);
+                    body.insert(at, ws);
+                }
+                inserted = n;
+            }
+            4 => {
+                let sep = ['_', ':', ',', '-', '+'][rng.usize_below(5)];
+                let at = rng.usize_below(body.len() + 1);
+                body.insert(at, sep);
+                body.insert(at, sep);
+                inserted = 2;
+            }
+            5 => {
+                prefix = prefix.to_uppercase();
+                body = body.iter().map(|c| c.to_ascii_uppercase()).collect();
+            }
+            6 => {
+                body.insert(0, ' ');
+                body.push(' ');
+                inserted = 2;
+            }
+            _ => {
+                body.push('\n');
+                inserted = 1;
+            }
+        }
+        if keep_len {
+            // drop digits from the end so that the character count is what it was
+            let mut left = inserted;
+            let mut i = body.len();
+            while left > 0 && i > 0 {
+                i -= 1;
+                if body[i].is_ascii_hexdigit() {
+                    body.remove(i);
+                    left -= 1;
+                }
+            }
+        }
+    }
+    format!("{prefix}{}", body.into_iter().collect::<String>())
+}
 
 /// Enumerated typed-data documents with one `intN` / `uintN` member at every boundary of its range
 /// (N = 8, 16, ..., 256; values 0, 2^(N-1)-1, 2^(N-1), 2^N-1, 2^N and their negatives, -2^(N-1)+-1;
